@@ -22,6 +22,7 @@
   of the hunks. Both are checked by the oracle on the implementation (exhaustively on small scopes).
 -/
 import JdProofs.LcsProofs
+import JdProofs.DiffMinimal
 import JdProofs.DiffPatchList
 
 namespace Jd.Props.C06
@@ -69,5 +70,44 @@ example (L : Jd.Spec.FloatLaws) :
       (diffM [] Jd.DPL.Example.exA Jd.DPL.Example.exB)).isSome = true := by
   obtain ⟨h1, h2, h3, h4, h5, h6, h7, h8, h9, h10⟩ := Jd.DPL.Example.hyps L
   exact context_lines_match_neighbours L [] rfl rfl _ _ h1 h2 h3 h4 h5 h6 h7 h8 h9 h10
+
+
+/-! ### Minimality of the list diff itself (JdProofs/DiffMinimal.lean)
+
+  For arrays of scalars the diff removes exactly `|a| − LCS` and adds exactly `|b| − LCS` elements,
+  where LCS is the textbook longest-common-subsequence length of the two hash lists — no edit script
+  that matches equal-hash elements can remove or add fewer; and every hunk carries exactly one line of
+  before- and one of after-context, addresses a list index, is strict and non-empty. -/
+
+open Jd.Min Jd.DPL in
+theorem scalar_array_diff_counts {o : Opts} (ho : dispatchTag o = .list) (hm : isMerge o = false)
+    {t t' : Tag} (xs ys : List Json)
+    (ht : (t == .raw || t == .list) = true) (ht' : (t' == .raw || t' == .list) = true)
+    (htt : t = .raw ∨ t' = .list) (scalars : ∀ x ∈ xs, isScalar x = true) :
+    let d := diffM o (.arr t xs) (.arr t' ys)
+    (d.map (·.remove.length)).sum = xs.length - lcsLenSpec (hashList o xs) (hashList o ys) ∧
+    (d.map (·.add.length)).sum = ys.length - lcsLenSpec (hashList o xs) (hashList o ys) :=
+  diffM_removes_adds_count_spec ho hm xs ys ht ht' htt scalars
+
+open Jd.Min Jd.DPL in
+theorem scalar_array_diff_is_minimal {o : Opts} (ho : dispatchTag o = .list) (hm : isMerge o = false)
+    {t t' : Tag} (xs ys : List Json)
+    (ht : (t == .raw || t == .list) = true) (ht' : (t' == .raw || t' == .list) = true)
+    (htt : t = .raw ∨ t' = .list) (scalars : ∀ x ∈ xs, isScalar x = true)
+    (c' : List UInt64) (h1 : c'.Sublist (hashList o xs)) (h2 : c'.Sublist (hashList o ys)) :
+    let d := diffM o (.arr t xs) (.arr t' ys)
+    (d.map (·.remove.length)).sum ≤ xs.length - c'.length ∧
+    (d.map (·.add.length)).sum ≤ ys.length - c'.length :=
+  diffM_removes_adds_minimal ho hm xs ys ht ht' htt scalars c' h1 h2
+
+open Jd.Min Jd.DPL in
+theorem scalar_array_hunks_carry_one_line_of_context {o : Opts} (ho : dispatchTag o = .list)
+    (hm : isMerge o = false) {t t' : Tag} (xs ys : List Json)
+    (ht : (t == .raw || t == .list) = true) (ht' : (t' == .raw || t' == .list) = true)
+    (htt : t = .raw ∨ t' = .list) (scalars : ∀ x ∈ xs, isScalar x = true) :
+    ∀ h ∈ diffM o (.arr t xs) (.arr t' ys),
+      h.before.length = 1 ∧ h.after.length = 1 ∧ (∃ i : Nat, h.path = [.idx i]) ∧
+        h.merge = false ∧ (h.remove ≠ [] ∨ h.add ≠ []) :=
+  diffM_hunk_shape ho hm xs ys ht ht' htt scalars
 
 end Jd.Props.C06
